@@ -186,6 +186,15 @@ def run_property(prop, tier='quick', seed=0, only_unit=None, verbose=False):
       if verbose:
         traceback.print_exc()
       continue
+    except Exception as e:
+      # anything else raised while a sidecar contract was applied to (changed) code -- e.g. a z3
+      # sort error from a contract hook fed a value of a new shape: a checker error of this unit
+      # only; the other units, the native fallback and the bounded clauses still run
+      status['crash'].append("%s: %s: %s" % (u.name, type(e).__name__, str(e)[:300]))
+      mismatch_units.append(u)
+      if verbose:
+        traceback.print_exc()
+      continue
     obs = [ob for ob in obs if any(ob.label.startswith(p) for p in prop.label_prefixes)]
     for ob in obs:
       unit_of[id(ob)] = u
